@@ -927,6 +927,8 @@ class Context:
     def _create_regexp_constructor(self) -> JSCallableObject:
         """Create the RegExp constructor."""
         ctx = self  # Capture self for closure
+        # RegExp.prototype: what every regular expression inherits from
+        regexp_prototype = JSObject(self._object_prototype)
 
         def regexp_constructor_fn(*args):
             pattern = to_string(args[0]) if args else ""
@@ -941,9 +943,14 @@ class Context:
                     return time.monotonic() - vm.start_time > vm.time_limit
 
                 poll_callback = check_timeout
-            return JSRegExp(pattern, flags, poll_callback)
+            regex = JSRegExp(pattern, flags, poll_callback)
+            regex._prototype = regexp_prototype
+            return regex
 
-        return JSCallableObject(regexp_constructor_fn)
+        constructor = JSCallableObject(regexp_constructor_fn)
+        constructor.set("prototype", regexp_prototype)
+        regexp_prototype.set("constructor", constructor)
+        return constructor
 
     def _create_function_constructor(self) -> JSCallableObject:
         """Create the Function constructor for dynamic function creation."""
